@@ -129,8 +129,12 @@ func (ep *endpoint) wsListenCase(sub string, good, keep bool) (*wsConn, func(), 
 	start := time.Now()
 	closed := false
 	buf := make([]byte, 64)
+	poll := time.Millisecond
 	for time.Since(start) < watchdog {
-		_ = c.SetReadDeadline(time.Now().Add(50 * time.Millisecond))
+		_ = c.SetReadDeadline(time.Now().Add(poll))
+		if poll < 50*time.Millisecond {
+			poll *= 2
+		}
 		var e error
 		if w != nil {
 			_, e = w.br.Read(buf)
@@ -411,7 +415,7 @@ func (s *wsSession) runIn(sp inSpec, hdrLen, size int, salt uint32) error {
 	payload := append(sp.hdr(hdrLen, salt), fill(size, salt)...)
 	_ = s.conn().SetWriteDeadline(time.Now().Add(watchdog))
 	if err := s.w.writeFrame(2, payload); err != nil {
-		return fmt.Errorf("harness frame write: %v", err)
+		return failf("C15/framing-in/connection-dropped/write", "fail", "harness write of a binary frame failed: %v", err)
 	}
 	return s.recvCheck(sp, payload, fmt.Sprintf("binary frame of %d header + %d body bytes", hdrLen, size))
 }
@@ -430,7 +434,7 @@ func (s *wsSession) runBurst(sp inSpec, sizes []int) error {
 		_ = s.conn().SetWriteDeadline(time.Now().Add(watchdog))
 		for _, p := range payloads {
 			if err := s.w.writeFrame(2, p); err != nil {
-				errc <- fmt.Errorf("harness frame write: %v", err)
+				errc <- failf("C15/framing-in/connection-dropped/write", "fail", "harness write of a binary frame failed: %v", err)
 				return
 			}
 		}
